@@ -166,7 +166,30 @@ def _frame_check(eng, st, gid, node, what, comps=None):
     st.assume(cond)
 
 
+class PTEEntry:
+    """pysmiles.PTE[element]: a row of the periodic table (only 'AtomicMass' is modelled, as an uninterpreted function)."""
+
+    def __init__(self, element):
+        self.element = element
+
+
+PTE_KNOWN = z3.Function('pte_known', z3.StringSort(), z3.BoolSort())
+PTE_MASS = z3.Function('pte_mass', z3.StringSort(), z3.RealSort())
+
+
 def get_item(eng, st, base, key, node, spec=False):
+    if isinstance(base, FuncRef) and base.canonical == 'pysmiles.PTE':
+        k = lift(key)
+        if k.ty is not TStr:
+            raise Unsupported('pysmiles.PTE indexed by a non-string')
+        eng.assumptions.add('pysmiles.PTE is a constant table: PTE[e]["AtomicMass"] is a positive number for every element symbol it knows')
+        eng.safety(st, PTE_KNOWN(k.t), node, 'element-in-PTE', spec)
+        return PTEEntry(k)
+    if isinstance(base, PTEEntry):
+        if _const_str(key) != 'AtomicMass':
+            raise Unsupported('PTE column %r is not modelled' % (_const_str(key),))
+        st.assume(PTE_MASS(base.element.t) > 0)
+        return Val(TReal, PTE_MASS(base.element.t))
     if isinstance(base, NodesOf):
         key, notnone = ops.unwrap_opt(lift(key))
         eng.safety(st, notnone, node, 'node-key-not-None', spec)
@@ -487,6 +510,26 @@ def call(eng, st, node, allow_raise):
         want = (eng.c.callee_variants or {}).get(canon.split(':')[-1].split('.')[-1])
         if want is not None and C.lookup(canon, want) is not None:
             con = C.lookup(canon, want)
+        elif con is not None and len(C.variants(canon)) > 1 and node.args:
+            # several variants that differ in the declared type of the first parameter (list / dict forms of one function):
+            # the static type of the first argument selects the variant
+            try:
+                a0 = eng.ev(node.args[0], st)
+            except Unsupported:
+                a0 = None
+            def _fits(cand):
+                names0 = [p for p, _ in cand.params] if getattr(cand, 'params', None) else list(cand.types)
+                if not names0 or names0[0] not in cand.types:
+                    return False
+                want_ty = parse_type(cand.types[names0[0]])
+                if isinstance(want_ty, TGraph) and isinstance(a0.ty, TGraph):
+                    return want_ty.schema == a0.ty.schema
+                return type(want_ty) is type(a0.ty)
+            if isinstance(a0, Val) and not _fits(con):
+                fitting = [cand for cand in C.variants(canon) if _fits(cand)]
+                fitting.sort(key=lambda cand: bool(cand.trusted))        # a verified contract before an assumed one
+                if fitting:
+                    con = fitting[0]
         if con is not None:
             return apply_contract(eng, st, node, con, allow_raise)
         if canon in RAISING_MODELS:
@@ -1631,6 +1674,8 @@ RAISING_MODELS = {'random.choice': m_random_choice, 'random.choices': m_random_c
 CANON_MODELS = {
     'networkx.set_node_attributes': m_set_node_attributes,
     'itertools.combinations': m_combinations,
+    'time.time_ns': lambda eng, st, node: fresh(TInt, 'time_ns'),
+    'random.seed': lambda eng, st, node: lift(None),
     'collections:defaultdict': m_defaultdict,
     'numpy.array': m_np_array,
     'networkx.Graph': m_nx_graph,
